@@ -32,6 +32,8 @@ def run(ctx):
     ctx.rule("R04.s", "setter model: Parameter.__set__ interpreted abstractly on every combination (576) of route x constant/readonly x validation outcome x identity x reference mode x watchers x "
                       "batching: while a batch is open every assignment still hands its event to every watcher, also when an event for the very same transition is already pending "
                       "(the flush keeps the last event per parameter)", floor=1)
+    ctx.rule("R04.q", "queue setters: the property setters Parameters._events / _state_watchers interpreted abstractly -- installing a new queue rebinds the stored list and leaves the list "
+                      "object read before untouched (trigger, the flush and discard_events keep references to it across the installation)", floor=2)
     ctx.rule("R04.m", "update model: Parameters._update interpreted abstractly (entry batching flag x key orders incl. an Event key x a rejected or unknown key at every position x a value identical to the current one, 60 cases): flag restored, flush exactly once iff outermost and after the restore, keys applied in order up to the failing one, Event mode and reset, complete previous-values mapping", floor=1)
     ctx.rule("R04.t", "trigger model: Parameters.trigger interpreted abstractly (instance/class x names incl. an Event and an unknown name x an event and a watcher queued before x the update dispatches / queues / raises, 96 cases): update runs once, with the trigger flag raised and the parked queues empty, on the current values; on exit the flag is lowered, earlier queue entries survive, no watcher is queued twice; the write-back is inside a _syncing scope", floor=1)
     ctx.not_decided += ["delivery counts and event contents under arbitrary nestings of batch/update/discard/trigger (need execution)"]
@@ -325,6 +327,8 @@ def run(ctx):
     restorer_model(ctx, "R04.r")
     from checks.shared import event_model
     event_model(ctx, "R04.y", "C04")
+    from checks.shared import queue_setters_model
+    queue_setters_model(ctx, "R04.q")
     from checks import setter_model
     setter_model.report(ctx, "C04", "R04.s")
     from checks import update_model
